@@ -68,7 +68,8 @@ CLAIMED = {
                  'never read), R(a)R(b)=R(a+b) and the three mixed cases, Rᵀ=R(−a), RᵀR=I, R·HWP=HWP·R(−a), P·HWP=P, the '
                  'factory identities — for all angles, pointwise for angle arrays.  The executable kernels are compared with '
                  'the implementation sample by sample; operators, rule outputs and factories are compared before and after '
-                 'reduce() with independently built Mueller matrices.'),
+                 'reduce() with independently built Mueller matrices.'
+                 ' CLOSED (Props/C15Closed.lean): in the list denotation, component c of sample t of HWP / rotation / polariser leaves is the Mueller row applied to the Stokes vector of that sample, the rotation angle being the NumPy-broadcast entry of the angle array; the transposed rotation is the rotation by -a; the chain laws as den of compositions (R(a)R(b) = R(a+b), R H = H R(-a), P H = P, R^T R = 1, H H = 1); the chain HWPOperator.create builds is sample-wise R(a)^T HWP R(a) before reduction, and reduceTop returns exactly [HWP, R(2a)] denoting the same map.'),
         'note': ('Trusted: Lean kernel + Mathlib real trigonometry + standard axioms; float32 cos/sin/rounding not modelled '
                  '(A8, tolerance 2e-4 on this channel).'),
         'technique': 'Lean 4 proof (ring / linear_combination / Real.cos_add) + differential correspondence of the kernels',
@@ -100,7 +101,8 @@ CLAIMED = {
                  '(order is a permutation, moved axes land at their destinations, swapping source and destination inverts) '
                  'are proved in FuraxProofs/Lemmas/MoveAxisPerm.lean when present.  Model and implementation are compared on '
                  'leaves of pairwise distinct sizes filled with distinct integers (shape + element order), and NumPy itself '
-                 'is the oracle on the implementation, together with transpose = inverse and reduce() → identity iff no-op.'),
+                 'is the oracle on the implementation, together with transpose = inverse and reduce() → identity iff no-op.'
+                 " CLOSED (Props/C13Closed.lean): in the list denotation, a move-axis leaf sends leaf k to the data of numpy.moveaxis' result, entry by entry through the permutation the algorithm computes; ravel and reshape are the identity on the flat data with equal sizes; the form .T builds denotes the two-sided inverse for all three; reduce() turns a ravel/reshape leaf into the identity exactly when the structure is unchanged and NEVER a move-axis leaf (kernel-checked witness: a move-axis on a square leaf keeps the structure and is not the identity map)."),
         'note': ('Trusted: Lean kernel + standard axioms; A1 (jnp.moveaxis/reshape behave as NumPy, re-checked on every case). '
                  'In the model ravel/reshape leave the row-major data untouched by construction.'),
         'technique': 'Lean 4 proof (list/arith lemmas) + differential correspondence against the model and NumPy',
@@ -227,7 +229,8 @@ CLAIMED = {
                  '(FuraxProofs/Lemmas/DiagonalSpec.lean); scalar forms of the axis argument; the strict variant never changes a '
                  'shape; scalar values, duplicated and incompatible axes raise ValueError and nothing else is raised; the '
                  'pseudo-inverse satisfies the Moore-Penrose identities without dividing by zero.  Model and implementation '
-                 'are compared on leaves with pairwise distinct sizes; an independent NumPy construction is the oracle.'),
+                 'are compared on leaves with pairwise distinct sizes; an independent NumPy construction is the oracle.'
+                 " CLOSED (Props/C11Closed.lean): in the list denotation of C01-C06, entry q of leaf k of a diagonal operator's result is values[the multi-index of q restricted to the destination axes, NumPy-broadcast] times the input entry, for pytrees with leaves of different rank (diagonal_entry_closed; needs as many destination axes as value dimensions, shown necessary by a kernel-checked witness); the operator is pointwise multiplication by one vector; the DiagonalInverseOperator multiplies by where(d != 0, 1/d, 0) and the four Moore-Penrose identities hold between the denotations, for arbitrary values; the broadcasting variant with its validity predicate."),
         'note': ('Trusted: Lean kernel + standard axioms; A1 (jnp.moveaxis/reshape/broadcasting as NumPy).'),
         'technique': 'Lean 4 proof (index arithmetic over row-major tensors) + differential correspondence',
         'design_ref': '§5 C11',
